@@ -11,6 +11,7 @@ import Gzx.Proofs.DMIlvIdx
 import Gzx.Proofs.DMIlv2
 import Gzx.Proofs.DMFinder
 import Gzx.Proofs.DMBytes
+import Gzx.Proofs.DMGF
 import Gzx.Proofs.DMSizeA
 import Gzx.Proofs.DMSizeB
 import Gzx.Proofs.DMSizeC
@@ -177,6 +178,19 @@ theorem createECCBlock_model (factorSets : List Nat) (factors : List (List Nat))
     have h2 : ¬ poly.length < n := by omega
     simp only [List.isEmpty_cons, Bool.false_eq_true, if_false, h1, h2, hb, Bool.not_true, htake]
     rw [← hlen, DMProofs.lfsr_eq_polyRem DMEnc.tabMul poly (by omega) (d :: ds)]
+
+/-- the table multiplication of the modelled createECCBlock (log/alog tables built as `init()` builds them) is the
+    reference field multiplication (shift-and-add, reduction by 0x12D) for all byte operands
+    (kernel-evaluated in exponent order: 2^i·2^j = 2^((i+j) mod 255) for all 255x255 pairs) -/
+theorem tabMul_is_field_mul (a b : Nat) (ha : a < 256) (hb : b < 256) : DMEnc.tabMul a b = gfMul a b :=
+  DMProofs.tabMul_eq_gfMul a b ha hb
+
+/-- the modelled createECCBlock with the standard's factor table returns the reference parity
+    (remainder of data(x)·x^n modulo ∏(x-2^i)) for EVERY byte vector and each of the 16 parity lengths -/
+theorem createECCBlock_eq_reference (n : Nat) (hn : n ∈ parityLengths) (data : List Nat)
+    (hd : ∀ x ∈ data, x < 256) :
+    DMEnc.createECCBlock parityLengths factorTable data n = .ok (eccBlock n data) :=
+  DMProofs.createECCBlock_eq_ref n hn data hd
 
 /-- the reference generator polynomials are monic of degree `n` and have no zero constant term -/
 theorem genPoly_shape : parityLengths.all (fun n =>
